@@ -694,7 +694,13 @@ class Archive(object):
                     else:
                         l.correlation = dict( fl_i.correlation )
                 if hasattr(fl_i,'ensemble'):
-                    l.ensemble = set( fl_i.ensemble )
+                    if live and hasattr(l,'ensemble'):
+                        # The members of an ensemble share one set object
+                        # (`append_real_ensemble` relies on that): a live
+                        # node keeps it, extended by the archived members.
+                        l.ensemble.update( fl_i.ensemble )
+                    else:
+                        l.ensemble = set( fl_i.ensemble )
                     
                 _leaf_nodes[uid_i] = l
                 
